@@ -229,7 +229,8 @@ class Env:
         name = self.task_names.get(id(task))
         if name is not None:
             self.cancel_calls.setdefault(name, []).append(
-                (self.sess.now(), token, str(task.status).split('.')[-1], self.sess.n))
+                (self.sess.now(), token, str(task.status).split('.')[-1], self.sess.n,
+                 len(self.sess.events)))
 
     def is_own(self, exc):
         ref = self.raised.get(id(exc))
@@ -335,7 +336,7 @@ def count_steps(program):
         total = 0
         for step in steps:
             total += 1
-            for key in ('body',):
+            for key in ('body', 'cleanup'):
                 if key in step:
                     total += walk(step[key])
             for child in step.get('children', ()):
@@ -990,6 +991,20 @@ async def op_guard(env, ctx, step):
             spawn(env, ctx, scope, key, step['child'])
 
 
+async def op_graceful(env, ctx, step):
+    """a body with an *asynchronous* clean-up: when the body is cancelled, interrupted or fails
+    (anything but a forceful close) the clean-up steps are awaited before the exception passes on
+    - a graceful shutdown, during which the activity can be struck again"""
+    try:
+        await run_steps(env, ctx, step['body'])
+    except GeneratorExit:
+        raise
+    except BaseException:  # noqa: B902
+        env.sess.stats['graceful_cleanups'] += 1
+        await run_steps(env, ctx, step['cleanup'])
+        raise
+
+
 async def op_try(env, ctx, step):
     """run the body, catch (only) exceptions raised by program code"""
     try:
@@ -1007,7 +1022,7 @@ HANDLERS = {
     'borrow': op_borrow, 'resource': op_resource, 'transfer': op_transfer,
     'scope': op_scope, 'spawn': op_spawn, 'cancel': op_cancel, 'await_task': op_await_task,
     'raise': op_raise, 'ticker': op_ticker, 'collect': op_collect, 'first': op_first,
-    'nop': op_nop, 'try': op_try, 'guard': op_guard,
+    'nop': op_nop, 'try': op_try, 'guard': op_guard, 'graceful': op_graceful,
 }
 
 
@@ -1051,16 +1066,25 @@ class LifecycleMonitor:
             task = env.task_inst.get(name)
             if task is None:
                 continue
-            for when, token, status, n in calls:
+            for when, token, status, n, position in calls:
                 if when != prev_time:
                     continue
                 self.judged += 1
                 sess.stats['c06_cancels_judged'] += 1
                 if status in ('CREATED', 'RUNNING') and not task.done:
-                    sess.violation(
-                        'c06:cancel-not-effective-in-time-step',
-                        'task %s was %s when cancelled at %r but is still not done at the '
-                        'end of that time step' % (name, status, when))
+                    # not done yet is fine only for a payload with an asynchronous clean-up -
+                    # but then the cancellation must have been raised in it in this time step
+                    seen = any(event[1] == name and event[2] == 'exc' and event[0] == when
+                               and event[-1] == 'CancelTask'
+                               for event in sess.events[position:])
+                    if seen:
+                        sess.stats['c06_cancel_seen_cleanup_pending'] += 1
+                    else:
+                        sess.violation(
+                            'c06:cancel-not-effective-in-time-step',
+                            'task %s was %s when cancelled at %r; at the end of that time step '
+                            'it is neither done nor has the cancellation been raised in it'
+                            % (name, status, when))
 
     def finish(self):
         env = self.env
@@ -1095,15 +1119,6 @@ class LifecycleMonitor:
                         'task %s cancelled before start ended as %s' % (name, final))
             else:
                 sess.stats['c06_cancel_running'] += 1
-            if final == 'CANCELLED' and name in begun and name in cancel_seen \
-                    and cancel_seen[name] != first[0] and first[2] == 'RUNNING':
-                # the cancellation surfaced in the payload: it must be in the time step of cancel()
-                later = [call for call in effective if call[0] == cancel_seen[name]]
-                if not later:
-                    sess.violation(
-                        'c06:cancellation-delivered-late',
-                        'task %s cancelled at %r saw the cancellation at %r' % (
-                            name, first[0], cancel_seen[name]))
             for awaiter, kind, ident, when, subject_ok, args in env.await_results.get(name, ()):
                 if kind == 'TaskCancelled' and final == 'CANCELLED':
                     if not subject_ok:
